@@ -675,6 +675,33 @@ class AlgDomain(EventsMixin, Domain):
       return self.binop(op, target, val, node, st)
     return UNKNOWN
 
+  def on_store_subscript(self, target, idx, val, node, st):
+    """Element stores change the content: the form is kept only for the two
+    idioms of a pseudo-inverse spectrum (selected entries replaced by their
+    reciprocals, the others by 0); anything else makes the value unknown."""
+    d = target.d
+    if d is None or d is UNKNOWN:
+      return None
+    stmt = node
+    v = getattr(stmt, 'value', None)
+    tg = stmt.targets[0] if isinstance(stmt, ast.Assign) else None
+    if isinstance(stmt, ast.Assign) and isinstance(v, ast.Constant) and \
+            v.value == 0 and isinstance(d, Vec):
+      return d          # entries declared negligible set to 0
+    if isinstance(stmt, ast.Assign) and isinstance(v, ast.BinOp) and \
+            isinstance(v.op, ast.Div) and isinstance(v.left, ast.Constant) \
+            and v.left.value == 1 and tg is not None and \
+            ast.unparse(v.right) == ast.unparse(tg) and isinstance(d, Vec):
+      inv = d.sx.pow(-1)
+      if inv is not None:
+        return Vec(inv, d.orient)
+    # a full overwrite `x[:] = value` takes the value's form
+    if isinstance(tg, ast.Subscript) and isinstance(tg.slice, ast.Slice) and \
+            tg.slice.lower is None and tg.slice.upper is None and \
+            tg.slice.step is None:
+      return val.d if val.d is not None else UNKNOWN
+    return UNKNOWN
+
   def on_branch(self, test, val, taken, node, st):
     d = val.d
     if isinstance(d, tuple) and d and d[0] == 'not':
